@@ -833,6 +833,116 @@ def ob_visit_start(chk: Check, kinds: Sequence[str]) -> None:
         ob.status, ob.detail = DISCHARGED, "defaults and fresh instances as expected"
 
 
+def ob_promotion(chk: Check) -> None:
+    """The unknown-variable promotion at the end of visit_Start (three nested loops), as one step of the flattened pair
+    loop (variable in aux) x (dependency in self.dependencies) acting on ONE generic record R (the element the innermost
+    loop over self.dependencies yields)."""
+    f = F("DAGAnalyzer.visit_Start")
+    s = Sym()
+    eng = s.eng
+    eng.externals["copy.copy"] = lambda e, v: v.snapshot() if isinstance(v, SymColl) else (_ for _ in ()).throw(
+        OutsideSubset("copy.copy of an unmodelled value"))
+    ls = LoopStep(REL, "DAGAnalyzer.visit_Start", 2, flatten=True)
+    v, y, o = eng.sym_str("variable"), eng.sym_str("probe.y"), eng.sym_str("out.of.dependency")
+    done = eng.sym_bool("ghost.y_was_promoted_so_far")
+    u0, i0 = eng.sym_bool("R.unknown_variables0.has_y"), eng.sym_int("R.inputs0.count_y")
+    key = "visit_Start::unknown-variable-promotion"
+    for shape, outs in (("defines-a-dataset-or-scalar", [o]), ("persistent-or-no-output", [])):
+        r_unknown, r_inputs = NameBag(eng, "R.unknown_variables", kind="list"), NameBag(eng, "R.inputs", kind="list")
+        R = ObjV(s.SD, {"inputs": r_inputs, "outputs": Opaque("R.outputs"), "persistent": Opaque("R.persistent"),
+                        "unknown_variables": r_unknown})
+        deps = IntKeyMap(eng, "dependencies")
+        deps.items_value = lambda k_, R=R: R
+        uv = NameBag(eng, "self.unknown_variables", kind="set")
+        selfv = ObjV(s.DA, {"dependencies": deps, "unknown_variables": uv})
+        D = ObjV(s.SD, {"inputs": Opaque("D.inputs"), "outputs": list(outs), "persistent": Opaque("D.persistent"),
+                        "unknown_variables": Opaque("D.unknown_variables")})
+        hit = Eq(v, o) if outs else False
+
+        def inv(ru: NameBag, ri: NameBag, dn: Any, initial: bool = False) -> Any:
+            return And(Iff(ru.has(y, initial), And(u0, Not(dn))), Le(ru.mult(y, initial), 1), Ge(ru.mult(y, initial), 0),
+                       Eq(ri.mult(y, initial), smt.Add(i0, b2i_(And(u0, dn)))))
+        pre = [inv(r_unknown, r_inputs, done, True), Le(r_unknown.mult(v, True), 1), Ge(r_unknown.mult(v, True), 0)]
+
+        def post(p: PathResult, init: Dict[str, Any], hit: Any = hit, r_unknown: NameBag = r_unknown,
+                 r_inputs: NameBag = r_inputs, uv: NameBag = uv) -> Any:
+            if p.kind != "return" or not isinstance(p.value, dict):
+                return False
+            me = p.value["self"]
+            # R is reached through the generic iteration: its collections were mutated in place; read their final terms
+            ru, ri, uv2 = r_unknown.snapshot(), r_inputs.snapshot(), me.attrs.get("unknown_variables")
+            ru.t, ri.t = dict(p.final_terms["ru"]), dict(p.final_terms["ri"])  # type: ignore[attr-defined]
+            if not isinstance(uv2, NameBag):
+                return False
+            moved = And(hit, r_unknown.has(v, True))
+            return And(Eq(ru.t["cnt"], Ite(moved, sto(ru.t0["cnt"], v, smt.Sub(r_unknown.mult(v, True), 1)), ru.t0["cnt"])),
+                       Eq(ri.t["cnt"], Ite(moved, sto(ri.t0["cnt"], v, smt.Add(r_inputs.mult(v, True), 1)), ri.t0["cnt"])),
+                       Eq(uv2.t["cnt"], Ite(hit, sto(uv.t0["cnt"], v, 0), uv.t0["cnt"])),
+                       inv(ru, ri, Or(done, And(hit, Eq(v, y)))),
+                       me.attrs.get("dependencies").unchanged() if isinstance(me.attrs.get("dependencies"), IntKeyMap) else False)
+        if ls.ok:
+            # record the final terms of R's collections per path (R is not part of the step's parameter list)
+            orig = ls.fv.node.body[-1]
+            eng.externals["__keep"] = lambda e, *a: e.effects.append(("final-terms", dict(r_unknown.t), dict(r_inputs.t)))
+            keep = ast.parse("__keep()").body[0]
+            ast.fix_missing_locations(keep)
+            if not (len(ls.fv.node.body) >= 2 and isinstance(ls.fv.node.body[-2], ast.Expr)
+                    and "__keep" in ast.unparse(ls.fv.node.body[-2])):
+                ls.fv.node.body.insert(len(ls.fv.node.body) - 1, keep)
+
+        def post_wrapped(p: PathResult, init: Dict[str, Any], post: Any = post) -> Any:
+            ft = next((e for e in p.effects if e[0] == "final-terms"), None)
+            if ft is None:
+                return False if p.kind == "return" else post(p, init)
+            p.final_terms = {"ru": ft[1], "ri": ft[2]}  # type: ignore[attr-defined]
+            return post(p, init)
+        # R is made reachable from `self` so that its collections are reset between paths with the rest of the state
+        selfv.attrs["_probe_record"] = R
+        state = {"self": selfv, ls.target(0, "variable"): v, ls.target(1, "dependency", inner=True): D}
+        ob = step_ob(chk, eng, ls, state, f, f"promotion::loop-step::{shape}",
+                     "unknown-variable promotion, one iteration of the pair loop (variable in aux, dependency in "
+                     f"self.dependencies; dependency {shape.replace('-', ' ')}) acting on a generic record R: if variable is in "
+                     "dependency.outputs, it is discarded from self.unknown_variables and, when R.unknown_variables holds it, "
+                     "moved from R.unknown_variables to R.inputs; else nothing changes.  Invariant for every name y (ghost: y was "
+                     "promoted by a pair processed so far): y in R.unknown_variables <=> it was there initially and not promoted; "
+                     "multiplicity of y in R.inputs = initial + [was unknown and promoted].  Hence after the loops y moves from "
+                     "unknown to input in EVERY record iff y is an unknown variable that SOME statement defines (non-persistent) "
+                     "- a function of the set of records, not of their order",
+                     pre, post_wrapped, N.promotion, key)
+    ob = chk.ob(f"{f}::promotion::initial-state-and-shape", f,
+                "between the statement loop and the promotion only `aux = copy.copy(self.unknown_variables)` happens, the outer "
+                "loop iterates that copy (the set it discards from is not the one it iterates), and statement_structure has put "
+                "every unknown variable of every record into self.unknown_variables (so every candidate is examined)")
+    ob.backend = "ast"
+    vs = find_def(REL, "DAGAnalyzer.visit_Start")
+    ss = find_def(REL, "DAGAnalyzer.statement_structure")
+    probs: List[str] = []
+    if isinstance(vs, ast.FunctionDef):
+        fors = [i for i, st in enumerate(vs.body) if isinstance(st, ast.For)]
+        if len(fors) != 3:
+            probs.append(f"visit_Start has {len(fors)} top-level loops")
+        else:
+            between = [ast.unparse(st) for st in vs.body[fors[1] + 1:fors[2]]]
+            if between != ["aux = copy.copy(self.unknown_variables)"] or ast.unparse(vs.body[fors[2]].iter) != "aux" \
+                    or vs.body[fors[2] + 1:]:
+                probs.append(f"code around the promotion: {between}, iterates {ast.unparse(vs.body[fors[2]].iter)}, "
+                             f"{len(vs.body[fors[2] + 1:])} statement(s) after it")
+    else:
+        probs.append("visit_Start not found")
+    if not isinstance(ss, ast.FunctionDef) or \
+            "self.unknown_variables.update(self.current_deps.unknown_variables)" not in ast.unparse(ss):
+        probs.append("statement_structure no longer adds the record's unknown variables to self.unknown_variables")
+    if probs:
+        ob.status, ob.detail = UNDECIDED, "; ".join(probs)
+        decide_by_native(ob, N.promotion, key)
+    else:
+        ob.status, ob.detail = DISCHARGED, "aux = copy.copy(self.unknown_variables); for variable in aux: ..."
+
+
+def b2i_(c: Any) -> Any:
+    return Ite(c, 1, 0)
+
+
 def ob_statement_shape(chk: Check) -> None:
     """Each dependency record has exactly one of outputs / persistent = [assigned name] (the shapes the loop steps assume)."""
     s = Sym()
@@ -1208,11 +1318,11 @@ def ob_collector_frames(chk: Check) -> None:
     else:
         ob.status, ob.detail = DISCHARGED, f"{len(collectors)} collectors, {len(fields)} analyzer attributes"
     chk.extra["collector_state"] = {a: {"touched_by": read_by[a], "written_by": written_by[a]} for a in fields if read_by[a]}
-    chk.notes.append("position independence, NOT discharged deductively (stays in the bounded tier): the unknown-variable "
-                     "promotion at the end of visit_Start (nested loops that remove / append list elements by value) - by "
-                     "inspection it moves a name from unknown_variables to inputs in every record iff some statement's `outputs` "
-                     "holds that name, which is a function of the set of records; and the content of the collectors themselves "
-                     "(which names a given expression contributes) - only their independence of earlier statements is shown")
+    chk.notes.append("position independence, NOT discharged deductively (stays in the bounded tier): the CONTENT of the "
+                     "collectors (which names a given expression contributes to inputs / unknown_variables - alias handling, "
+                     "membership, UDO parameters) - only their independence of earlier statements is shown.  The "
+                     "unknown-variable promotion at the end of visit_Start has its own loop-step obligation "
+                     "(visit_Start::promotion::*)")
 
 
 # =====================================================================================================================
@@ -1221,7 +1331,8 @@ def run(chk: Check) -> None:
     import time
     t0 = time.time()
     kinds = statement_kinds(chk)
-    for fn in (lambda: ob_visit_start(chk, kinds), lambda: ob_statement_shape(chk), lambda: ob_load_vertex(chk),
+    for fn in (lambda: ob_visit_start(chk, kinds), lambda: ob_promotion(chk), lambda: ob_statement_shape(chk),
+               lambda: ob_load_vertex(chk),
                lambda: ob_load_edges(chk), lambda: ob_unique_producer_callsite(chk), lambda: ob_build_and_sort(chk),
                lambda: ob_sort_elements(chk), lambda: ob_check_overwriting(chk), lambda: ob_sort_ast(chk, kinds),
                lambda: ob_create_dag(chk), lambda: ob_collector_frames(chk)):
